@@ -58,6 +58,10 @@ type Vocab struct {
 	// variable nobody assigns) whose operand is not in this list is a table-driven rewrite and is unrolled.
 	Ranges map[string][]string `json:"ranges"`
 	Vars   map[string][]string `json:"vars"`
+	// Returns: "pkg|Func" -> number of return statements (function literals not counted). A function that has fewer
+	// than in the reference tree was probably rewritten in single-exit style; its trailing `return` is then copied to
+	// the end of the branches that lead to it (tail duplication), which gives every exit its own values again.
+	Returns map[string]int `json:"returns"`
 }
 
 func sigText(ft *ast.FuncType) string {
@@ -154,6 +158,16 @@ func closureNames(body ast.Node) []string {
 	return out
 }
 
+func countReturns(body ast.Node) int {
+	n := 0
+	walkNoLit(body, func(x ast.Node) {
+		if _, ok := x.(*ast.ReturnStmt); ok {
+			n++
+		}
+	})
+	return n
+}
+
 // closureSigs: name -> signature of the function literal (or declared function type) bound to it.
 func closureSigs(body ast.Node) map[string]string {
 	out := map[string]string{}
@@ -188,7 +202,7 @@ func closureSigs(body ast.Node) map[string]string {
 
 // ScanNames parses the non-test Go files below dir (content from overlay when present) and returns their names.
 func ScanNames(dir string, overlay map[string][]byte) (*Vocab, error) {
-	v := &Vocab{Funcs: map[string][]string{}, Closures: map[string]map[string][]string{}, Sigs: map[string]string{}, Ranges: map[string][]string{}, Vars: map[string][]string{}}
+	v := &Vocab{Funcs: map[string][]string{}, Closures: map[string]map[string][]string{}, Sigs: map[string]string{}, Ranges: map[string][]string{}, Vars: map[string][]string{}, Returns: map[string]int{}}
 	fset := token.NewFileSet()
 	err := filepath.Walk(dir, func(path string, fi os.FileInfo, err error) error {
 		if err != nil {
@@ -234,6 +248,7 @@ func ScanNames(dir string, overlay map[string][]byte) (*Vocab, error) {
 					}
 					return true
 				})
+				v.Returns[rel+"|"+name] = countReturns(fd.Body)
 			}
 			v.Funcs[rel] = append(v.Funcs[rel], name)
 			v.Sigs[rel+"|"+name] = sigText(fd.Type)
@@ -381,6 +396,11 @@ func Normalise(cfg Config, voc *Vocab) (*NormResult, error) {
 			}
 		}
 	}
+	for key, n := range cur.Returns {
+		if want, has := voc.Returns[key]; has && n < want {
+			newRangePkgs[strings.SplitN(key, "|", 2)[0]] = true
+		}
+	}
 	if len(nf) == 0 && len(nc) == 0 && len(newRangePkgs) == 0 {
 		return nil, nil
 	}
@@ -449,7 +469,13 @@ func Normalise(cfg Config, voc *Vocab) (*NormResult, error) {
 					}
 					fname := pk.CompiledGoFiles[i]
 					src := in.srcOf(fname)
-					edits := in.fileEdits(f, fname, src)
+					var edits []textEdit
+					if round == 0 {
+						edits = in.tailDupEdits(f, src)
+					}
+					if len(edits) == 0 {
+						edits = in.fileEdits(f, fname, src)
+					}
 					if len(edits) == 0 {
 						edits = in.unrollEdits(f, fname, src)
 					}
@@ -1939,5 +1965,130 @@ func (in *inliner) unrollEdits(f *ast.File, fname string, src []byte) []textEdit
 		})
 	}
 	_ = fname
+	return edits
+}
+
+// ---- single-exit style: tail duplication --------------------------------------------------------------------------
+
+// tailDupEdits: in a function that has fewer return statements than the reference tree, the final `return …` is copied
+// to the end of every branch of the if / switch that immediately precedes it (recursively for branches that themselves
+// end in an if / switch). The original return stays where it is, so nothing changes for paths that fall through.
+func (in *inliner) tailDupEdits(f *ast.File, src []byte) []textEdit {
+	if in.voc == nil || len(in.voc.Returns) == 0 {
+		return nil
+	}
+	var edits []textEdit
+	for _, d := range f.Decls {
+		fd, ok := d.(*ast.FuncDecl)
+		if !ok || fd.Body == nil || len(fd.Body.List) < 2 {
+			continue
+		}
+		want, has := in.voc.Returns[in.rel+"|"+declName(fd)]
+		if !has || countReturns(fd.Body) >= want {
+			continue
+		}
+		last, isRet := fd.Body.List[len(fd.Body.List)-1].(*ast.ReturnStmt)
+		if !isRet {
+			continue
+		}
+		// the returned expressions must be plain (identifiers, literals, selectors): copying them earlier must not
+		// move a call
+		plain := true
+		for _, e := range last.Results {
+			ast.Inspect(e, func(n ast.Node) bool {
+				switch n.(type) {
+				case *ast.CallExpr, *ast.FuncLit, *ast.UnaryExpr:
+					if u, isU := n.(*ast.UnaryExpr); isU && u.Op != token.ARROW {
+						return true
+					}
+					plain = false
+				}
+				return true
+			})
+		}
+		if !plain {
+			continue
+		}
+		retText := in.text(last)
+		if retText == "" {
+			continue
+		}
+		before := len(edits)
+		var dup func(st ast.Stmt)
+		endsTerminating := func(list []ast.Stmt) bool {
+			if len(list) == 0 {
+				return false
+			}
+			switch x := list[len(list)-1].(type) {
+			case *ast.ReturnStmt:
+				return true
+			case *ast.BranchStmt:
+				return true
+			case *ast.ExprStmt:
+				if c, isC := x.X.(*ast.CallExpr); isC {
+					if id, isID := c.Fun.(*ast.Ident); isID && id.Name == "panic" {
+						return true
+					}
+				}
+			}
+			return false
+		}
+		appendTo := func(list []ast.Stmt, rbrace token.Pos) {
+			if endsTerminating(list) {
+				return
+			}
+			if len(list) > 0 {
+				switch tail := list[len(list)-1].(type) {
+				case *ast.IfStmt, *ast.SwitchStmt, *ast.TypeSwitchStmt:
+					dup(tail.(ast.Stmt))
+				}
+			}
+			off := in.offset(rbrace)
+			edits = append(edits, textEdit{off: off, end: off, text: "\n" + retText + "\n" + in.lineDirective(rbrace)})
+		}
+		dup = func(st ast.Stmt) {
+			switch x := st.(type) {
+			case *ast.IfStmt:
+				appendTo(x.Body.List, x.Body.Rbrace)
+				switch e := x.Else.(type) {
+				case *ast.BlockStmt:
+					appendTo(e.List, e.Rbrace)
+				case *ast.IfStmt:
+					dup(e)
+				}
+			case *ast.SwitchStmt:
+				for _, cc := range x.Body.List {
+					cl := cc.(*ast.CaseClause)
+					if len(cl.Body) > 0 {
+						if br, isBr := cl.Body[len(cl.Body)-1].(*ast.BranchStmt); isBr && br.Tok == token.FALLTHROUGH {
+							continue
+						}
+					}
+					end := cl.End()
+					if endsTerminating(cl.Body) {
+						continue
+					}
+					if len(cl.Body) > 0 {
+						switch tail := cl.Body[len(cl.Body)-1].(type) {
+						case *ast.IfStmt, *ast.SwitchStmt:
+							dup(tail.(ast.Stmt))
+						}
+					}
+					off := in.offset(end)
+					edits = append(edits, textEdit{off: off, end: off, text: "\n" + retText + "\n" + in.lineDirective(end)})
+				}
+			}
+		}
+		prev := fd.Body.List[len(fd.Body.List)-2]
+		switch prev.(type) {
+		case *ast.IfStmt, *ast.SwitchStmt:
+			dup(prev)
+		}
+		if len(edits) > before {
+			where := in.pk.Fset.PositionFor(last.Pos(), true)
+			in.res.Inlined = append(in.res.Inlined, fmt.Sprintf("%s: trailing return of %s copied into %d branch(es) (%s:%d)", in.rel, declName(fd), len(edits)-before, filepath.Base(where.Filename), where.Line))
+		}
+	}
+	_ = src
 	return edits
 }
